@@ -23,6 +23,7 @@ CONF = {
     "C17": tiers(20000, 2, 300000, 12),
     "C18": tiers(15000, 2, 200000, 12),
     "C19": tiers(15000, 2, 300000, 12),
+    "C08": tiers(4000, 4, 50000, 12),
     "C10": tiers(2500, 4, 40000, 12),
     "C11": tiers(2500, 4, 40000, 12),
     "C13": tiers(1500, 4, 25000, 12),
